@@ -771,6 +771,45 @@ class SymC:
     def tan(a):
         return a.sin() / a.cos()
 
+    def arctan2(y, x):
+        """numpy.arctan2(y, x): a fresh angle beta in (-pi, pi] with r*cos(beta) == x, r*sin(beta) == y, r >= 0 (beta == 0 when r == 0).
+        The raw value of beta is linked to the signs of its circle atoms quadrant by quadrant, so that comparisons of beta with
+        multiples of pi/2 are decided exactly."""
+        S = y.S
+        x = y._l(x)
+        if x is NotImplemented:
+            return x
+        cy, cx = y.const_complex(), x.const_complex()
+        if cy is not None and cx is not None:
+            return S.lift(math.atan2(cy.real, cx.real))
+        if not (y.is_real_syntactic() and x.is_real_syntactic()):
+            raise Unsupported("arctan2 of complex symbolic values")
+        keyp = P.add(y.p, P.mul(P.var(0), x.p, S.V))
+        k = ("atan2", P.key(keyp))
+        hit = S.fresh_memo.get(k)
+        if hit is not None:
+            return hit
+        name = f"atan{len(S.fresh_memo)}"
+        beta = S.param(name, D=1, wrap=False)
+        S.fresh_memo[k] = beta
+        ph = S.phasor(Form({name: F(1)}))
+        cp, sp = P.split_complex(ph)
+        r = S.real(name + "_r")
+        S.constrain(">=0", r.p)
+        S.constrain("==0", P.sub(P.mul(r.p, cp, S.V), x.p))
+        S.constrain("==0", P.sub(P.mul(r.p, sp, S.V), y.p))
+        b, c, sn, rz, PI = S.z3poly(beta.p), S.z3poly(cp), S.z3poly(sp), S.z3poly(r.p), S.zvar(S.PIv)
+        S.pathcond.append(z3.And(
+            b > -PI, b <= PI,
+            (sn > 0) == z3.And(b > 0, b < PI), (sn < 0) == z3.And(b < 0, b > -PI),
+            z3.And(sn == 0, c > 0) == (b == 0), z3.And(sn == 0, c < 0) == (b == PI),
+            (c > 0) == z3.And(b > -PI / 2, b < PI / 2), z3.And(c == 0, sn > 0) == (b == PI / 2), z3.And(c == 0, sn < 0) == (b == -PI / 2),
+            z3.Implies(rz == 0, b == 0)))
+        note = "arctan2(y, x): fresh angle beta in (-pi, pi] with r*cos(beta) == x, r*sin(beta) == y, r >= 0; beta == 0 when x == y == 0"
+        if note not in S.assumed:
+            S.assumed.append(note)
+        return beta
+
     def exp(a):
         fr, fi = a._need_aff("exp")
         S = a.S
@@ -797,7 +836,6 @@ class SymC:
 
         return f
 
-    arctan2 = _unsup("arctan2")
     arctan = _unsup("arctan")
     arccos = _unsup("arccos")
     arcsin = _unsup("arcsin")
